@@ -26,6 +26,6 @@ for P in "$@"; do
 done
 ./tools_manifest.py; ./tools_lock_theorems.py
 git add -A; git commit -q -m "after merge $B: manifest, lock"
-U=$(echo $B | tr a-z A-Z)
+U=${B^}
 git worktree remove --force /tmp/w/$U 2>/dev/null; git -C /repo worktree remove --force /tmp/r/$U 2>/dev/null; git branch -D $B -q
-for P in "$@"; do ./check $P 2>&1 | grep -E "^VIOLATION|^KNOWN|exit" | head -3; echo "$P exit $?"; done
+for P in "$@"; do ./check $P > /tmp/merge_check_$P.log 2>&1; echo "$P exit $?"; grep -E "^VIOLATION" /tmp/merge_check_$P.log | head -3; done
